@@ -17,8 +17,9 @@ FILES = ["amaranth/lib/wiring.py", "amaranth/hdl/_dsl.py", "amaranth/sim/_pyrtl.
 
 
 # ---------------------------------------------------------------------------------------- signature trees
-# spec: ("sig", [(name, "in"|"out", member)]);  member: ("port", shape_spec, init, dims) | ("sub", spec, dims)
-# shape_spec: ("u", w) | ("s", w) | ("struct",) | ("enum",)
+# spec: ("sig", [(name, "in"|"out", member)]);  member: ("port", shape_spec, init, dims) | ("sub", spec, dims) | ("subf", spec, dims)
+#   "subf": the member's description is the FLIPPED signature built from spec (In(sig.flip()) is Out(sig))
+# shape_spec: ("u", w) | ("s", w) | ("struct",) | ("enum",) | ("senum",) | ("range", lo, hi)
 def gen_sig(r, depth, all_out=False):
     n = r.randint(1, 3)
     members = []
@@ -26,7 +27,7 @@ def gen_sig(r, depth, all_out=False):
         flow = "out" if all_out else r.choice(["in", "out"])
         dims = r.choice([(), (), (), (2,), (1,), (2, 2), (0,)])
         if depth > 0 and r.random() < 0.4:
-            members.append((f"m{k}", flow, ("sub", gen_sig(r, depth - 1, all_out), dims)))
+            members.append((f"m{k}", flow, ("sub" if all_out or r.random() < 0.7 else "subf", gen_sig(r, depth - 1, all_out), dims)))
         else:
             c = r.random()
             if c < 0.7:
@@ -35,10 +36,16 @@ def gen_sig(r, depth, all_out=False):
                 shp = ("s" if sgn else "u", w)
                 lo, hi = (-(1 << w - 1), (1 << w - 1) - 1) if sgn else (0, (1 << w) - 1)
                 init = r.choice([None, None, r.randint(lo, hi)])
-            elif c < 0.85:
+            elif c < 0.8:
                 shp, init = ("struct",), r.choice([None, {"a": 1, "b": -1}])
-            else:
+            elif c < 0.88:
                 shp, init = ("enum",), r.choice([None, 2])
+            elif c < 0.94:
+                shp, init = ("senum",), r.choice([None, -2, 1])
+            else:
+                lo = r.choice([-8, -3, 0, 1])
+                hi = lo + r.choice([1, 2, 5, 11])
+                shp, init = ("range", lo, hi), r.choice([None, lo, hi - 1])
             members.append((f"m{k}", flow, ("port", shp, init, dims)))
     r.shuffle(members)
     return ("sig", members)
@@ -50,6 +57,13 @@ class E3(aenum.Enum, shape=2):
     C = 2
 
 
+class ES(aenum.Enum, shape=Shape(3, True)):
+    N = -2
+    Z = 0
+    P = 1
+
+
+ENUMS = {"enum": E3, "senum": ES}
 LAYOUT = data.StructLayout({"a": 2, "b": Shape(2, True)})
 
 
@@ -60,7 +74,9 @@ def shape_of(shp):
         return Shape(shp[1], True)
     if shp[0] == "struct":
         return LAYOUT
-    return E3
+    if shp[0] == "range":
+        return range(shp[1], shp[2])
+    return ENUMS[shp[0]]
 
 
 def build_sig(spec, reverse=False):
@@ -72,10 +88,10 @@ def build_sig(spec, reverse=False):
         F = In if flow == "in" else Out
         if m[0] == "port":
             _, shp, init, dims = m
-            mem = F(shape_of(shp), init=E3(init) if shp[0] == "enum" and init is not None else init)
+            mem = F(shape_of(shp), init=ENUMS[shp[0]](init) if shp[0] in ENUMS and init is not None else init)
         else:
-            _, sub, dims = m
-            mem = F(build_sig(sub, reverse))
+            kind, sub, dims = m
+            mem = F(build_sig(sub, reverse).flip() if kind == "subf" else build_sig(sub, reverse))
         if dims:
             mem = mem.array(*dims)
         members[name] = mem
@@ -88,10 +104,10 @@ def show_sig(spec):
         d = "".join(f"[{x}]" for x in m[-1])
         if m[0] == "port":
             shp = m[1]
-            st = f"{shp[0]}{shp[1]}" if len(shp) > 1 else shp[0]
+            st = f"range({shp[1]},{shp[2]})" if shp[0] == "range" else f"{shp[0]}{shp[1]}" if len(shp) > 1 else shp[0]
             out.append(f"{name}: {flow.capitalize()}({st}{'' if m[2] is None else ', init=' + repr(m[2])}){d}")
         else:
-            out.append(f"{name}: {flow.capitalize()}({show_sig(m[1])}){d}")
+            out.append(f"{name}: {flow.capitalize()}({show_sig(m[1])}{'.flip()' if m[0] == 'subf' else ''}){d}")
     return "{" + ", ".join(out) + "}"
 
 
@@ -106,7 +122,7 @@ def ref_leaves(spec, flip=False, path=()):
             if m[0] == "port":
                 out.append((p, eff, m[1], m[2]))
             else:
-                out.extend(ref_leaves(m[1], eff == "in", p))
+                out.extend(ref_leaves(m[1], (eff == "in") != (m[0] == "subf"), p))
     return out
 
 
@@ -546,7 +562,7 @@ def _replace(spec, path, fn):
         else:
             members[i] = new
     else:
-        members[i] = (name, flow, ("sub", _replace(m[1], path[1:], fn), m[2]))
+        members[i] = (name, flow, (m[0], _replace(m[1], path[1:], fn), m[2]))
     return ("sig", members)
 
 
@@ -555,7 +571,7 @@ def _effective_flow(spec, path, flip=False):
     eff = flow if not flip else ("in" if flow == "out" else "out")
     if len(path) == 1:
         return eff
-    return _effective_flow(m[1], path[1:], eff == "in")
+    return _effective_flow(m[1], path[1:], (eff == "in") != (m[0] == "subf"))
 
 
 def corruption_obligations(job):
@@ -672,6 +688,10 @@ def corner_specs():
                                                ("inner", "in", ("sub", ("sig", [("x", "out", ("port", ("struct",), None, ())), ("y", "in", ("port", ("enum",), 2, ()))]), (2,)))]), ()))]),
         ("sig", [("z", "out", ("port", ("u", 0), None, ())), ("w", "in", ("port", ("u", 4), None, (2, 2))), ("e", "out", ("sub", ("sig", []), ()))]),
         ("sig", [("s", "out", ("sub", ("sig", [("d", "out", ("port", ("s", 4), -3, ())), ("v", "out", ("port", ("u", 1), None, ()))]), (2,)))]),
+        # member descriptions that are already-flipped signatures, and signed shapes that are not Shape objects
+        ("sig", [("req", "out", ("port", ("u", 1), None, ())),
+                 ("sub", "in", ("subf", ("sig", [("data", "out", ("port", ("range", -8, 8), -3, ())), ("ack", "in", ("port", ("senum",), -2, ()))]), ())),
+                 ("arr", "out", ("subf", ("sig", [("lvl", "in", ("port", ("senum",), None, ())), ("k", "out", ("port", ("range", 1, 6), None, (2,)))]), (2,)))]),
     ]
 
 
